@@ -655,7 +655,7 @@ func versionOwnsLevels(c *eng.Ctx) {
 				continue
 			}
 			nm++
-			_, fresh := eng.Unwrap(mu.Value).(*ssa.MakeMap)
+			fresh := freshMap(mu.Value, 0)
 			c.Check(fresh, fmt.Sprintf("clone-owns-inner-map[%d]", nm), in, cl,
 				"a map nested in the version's state is created by Clone, not taken over from the base version", "stores "+p.Desc(mu.Value))
 		}
@@ -678,7 +678,10 @@ func createFamilyOnce(c *eng.Ctx) {
 	for _, b := range eng.BlocksT(f) {
 		for _, in := range b.Instrs {
 			if l, ok := in.(*ssa.Lookup); ok && eng.DependsOnField(l.X, "kv.store.families") {
-				lookups = append(lookups, eng.Site{Fn: f, Instr: in})
+				// a look-up inside a helper counts at every site of CreateFamily that enters the helper
+				for _, top := range topsOf(f, in) {
+					lookups = append(lookups, eng.Site{Fn: f, Instr: top})
+				}
 			}
 		}
 	}
@@ -760,4 +763,40 @@ func pendingOutputClaimOrder(c *eng.Ctx) {
 		m := c.Fn(cjT + ".mergeCompaction")
 		neverBeforeDeep(c, m, eng.AnyCallTo("kv.Family.removePendingOutput", famT+".removePendingOutput"), eng.AnyCallTo("kv.Family.commitEditLog", famT+".commitEditLog"), "removePendingOutput", "commitEditLog", 3)
 	})
+}
+
+// freshMap: v is a map made here: make(map..) / a map literal, or the result of a function (of this module) every return
+// of which hands out a map it made itself.
+func freshMap(v ssa.Value, depth int) bool {
+	v = eng.Unwrap(v)
+	if depth > 3 || v == nil {
+		return false
+	}
+	switch x := v.(type) {
+	case *ssa.MakeMap:
+		return true
+	case *ssa.Phi:
+		for _, e := range x.Edges {
+			if !freshMap(e, depth+1) {
+				return false
+			}
+		}
+		return true
+	case *ssa.Call:
+		g := x.Common().StaticCallee()
+		if g == nil || len(g.Blocks) == 0 || !eng.InModule(g) || g.Signature.Results().Len() != 1 {
+			return false
+		}
+		n := 0
+		for _, b := range g.Blocks {
+			if r, ok := b.Instrs[len(b.Instrs)-1].(*ssa.Return); ok {
+				n++
+				if !freshMap(r.Results[0], depth+1) {
+					return false
+				}
+			}
+		}
+		return n > 0
+	}
+	return false
 }
